@@ -68,7 +68,17 @@ class SpotSys:
         return ops
 
     # ---------------------------------------------------------------- transitions
+    def _flag(self):
+        if self.cfg.get('raw'):
+            self.problems = [(c, dict(sg, raw_sells=True), m) for c, sg, m in self.problems]
+
     def apply(self, op):
+        try:
+            return self._apply(op)
+        finally:
+            self._flag()
+
+    def _apply(self, op):
         from jesse import exceptions
         try:
             if op[0] in ('buy', 'sell'):
@@ -119,7 +129,7 @@ class SpotSys:
         expect_reject = need > have
         fn = {'MARKET': self.api.market_order, 'LIMIT': self.api.limit_order, 'STOP': self.api.stop_order}[typ]
         try:
-            o = fn(SYM, q, price, side, side == 'sell')
+            o = fn(SYM, q, price, side, side == 'sell' and not self.cfg.get('raw'))
             rejected = False
         except exceptions.InsufficientBalance:
             rejected = True
@@ -198,6 +208,7 @@ class SpotSys:
         live_ref = [i for i, o in enumerate(self.ref) if o['live']]
         if live_impl != live_ref:
             self.problems.append(('live-orders', {}, 'active orders %s, model %s' % (live_impl, live_ref)))
+        self._flag()
 
     def canon(self):
         k = self.acct.canon_common(self.ex, {SYM: self.pos}, self.objs)
@@ -215,6 +226,9 @@ def configs(ctx):
     out = []
     for fee in ((0.001,) if ctx.quick else (0, 0.001, 0.00075)):
         out.append({'fee': fee, 'balance': 25 * u * p, 'u': u, 'p': p})
+    # sells submitted the way a strategy's raw broker calls (broker.sell_at, sell_at_market, start_profit_at) submit them:
+    # NOT reduce-only
+    out.append({'fee': 0.001, 'balance': 25 * u * p, 'u': u, 'p': p, 'depth': 4, 'raw': True})
     # a holding of 1.0 with two resting exits of 0.1 and 0.7 (decimal fractions that are inexact in binary), limit and stop ladders
     for typ, pr in (('LIMIT', 11.0), ('STOP', 9.0)):
         out.append({'fee': 0.0, 'balance': 25 * u * p, 'u': u, 'p': p, 'depth': 4,
